@@ -119,9 +119,9 @@ Proof.
   - apply quiet_evs_app; apply evs_removed_quiet; discriminate.
 Qed.
 
-Lemma clean_entity_caches_frame s en :
-  regs_eq s (clean_entity_caches s en) (fun l => l) (fun l => l) /\ peers (clean_entity_caches s en) = peers s.
-Proof. unfold clean_entity_caches. destruct (re_dev en); simpl; split; try constructor; reflexivity. Qed.
+Lemma clean_entity_caches_frame s d a :
+  regs_eq s (clean_entity_caches s d a) (fun l => l) (fun l => l) /\ peers (clean_entity_caches s d a) = peers s.
+Proof. unfold clean_entity_caches. destruct d; simpl; split; try constructor; reflexivity. Qed.
 
 Lemma owner_peers s s1 e : peers s1 = peers s -> owner_ok s e -> owner_ok s1 e.
 Proof. unfold owner_ok, find_peer. intros ->. tauto. Qed.
@@ -137,26 +137,6 @@ Proof.
     apply eqb_eaddr_eq in Ea, Ee. congruence.
   - destruct (eqb_eaddr (re_addr x) e); [reflexivity | exact IH].
 Qed.
-
-Lemma remove_entities_cons s p de r :
-  remove_entities s p (de :: r) =
-  match find_peer s p with
-  | None => (s, [], true)
-  | Some pe =>
-      if negb (check_entity pe de) then (s, [], true) else
-      match find_rent pe (de_addr de) with
-      | None => remove_entities s p r
-      | Some en =>
-          let pe1 := {| p_ski := p_ski pe; p_addr := p_addr pe;
-                        p_ents := filter (fun x => negb (eqb_eaddr (re_addr x) (de_addr de))) (p_ents pe) |} in
-          let s1 := set_peer s pe1 in
-          let '(s2, evs) := remove_for_entity s1 pe1 en in
-          let s3 := clean_entity_caches s2 en in
-          let '(s4, evs2, err) := remove_entities s3 p r in
-          (s4, ev_entity ChRemove pe en.(re_addr) :: evs ++ evs2, err)
-      end
-  end.
-Proof. reflexivity. Qed.
 
 (* an entry that survives the removal of entity [a] of peer [pe] keeps an owner *)
 Lemma owner_survives s p pe a en e :
@@ -181,54 +161,97 @@ Proof.
   - exists pe', en'. split; [reflexivity | exact Hr'].
 Qed.
 
-Lemma remove_entities_spec l : forall s p s' evs err,
-  RegOK s -> remove_entities s p l = (s', evs, err) ->
+Lemma regs_eq_refl s p : regs_eq s s (drop p []) (drop p []).
+Proof. constructor; rewrite ?drop_nil; reflexivity. Qed.
+
+Lemma remove_entity_unfold s p a :
+  remove_entity s p a =
+  match find_peer s p with
+  | None => (s, [])
+  | Some pe =>
+      match find_rent pe a with
+      | None => (s, [])
+      | Some en =>
+          let pe1 := {| p_ski := p_ski pe; p_addr := p_addr pe;
+                        p_ents := filter (fun x => negb (eqb_eaddr (re_addr x) a)) (p_ents pe) |} in
+          let s1 := set_peer s pe1 in
+          let '(s2, evs) := remove_for_entity s1 pe1 en in
+          (clean_entity_caches s2 (p_addr pe) a, ev_entity ChRemove pe (re_addr en) :: evs)
+      end
+  end.
+Proof. reflexivity. Qed.
+
+(* NodeManagement.removeRemoteEntity *)
+Lemma remove_entity_spec s p a s' evs :
+  RegOK s -> remove_entity s p a = (s', evs) ->
+  RegOK s' /\ regs_eq s s' (drop p (gone_of evs)) (drop p (gone_of evs)) /\
+  existsb is_notify evs = false /\ results evs = [] /\ (gone_of evs = [] \/ gone_of evs = [a]).
+Proof.
+  intros Hok H. rewrite remove_entity_unfold in H.
+  destruct (find_peer s p) as [pe|] eqn:Ep.
+  2:{ inversion H; subst. split; [exact Hok|]. split; [apply regs_eq_refl | repeat split; auto]. }
+  destruct (find_rent pe a) as [en|] eqn:Een.
+  2:{ inversion H; subst. split; [exact Hok|]. split; [apply regs_eq_refl | repeat split; auto]. }
+  cbv zeta in H.
+  set (pe1 := {| p_ski := p_ski pe; p_addr := p_addr pe;
+                 p_ents := filter (fun x => negb (eqb_eaddr (re_addr x) a)) (p_ents pe) |}) in *.
+  pose proof (remove_for_entity_spec (set_peer s pe1) pe1 en) as Hr.
+  destruct (remove_for_entity (set_peer s pe1) pe1 en) as [s2 evs1].
+  destruct Hr as [[Hs2 Hn2 Hb2 Hnb2] [Hp2 [Hq [Hres Hg]]]].
+  destruct (clean_entity_caches_frame s2 (p_addr pe) a) as [[Hs3 Hn3 Hb3 Hnb3] Hp3].
+  injection H as H1 H2. subst s' evs.
+  pose proof (find_peer_ski _ _ _ Ep) as Hski.
+  pose proof (find_rent_addr _ _ _ Een) as Haddr.
+  assert (Hp3' : peers (clean_entity_caches s2 (p_addr pe) a) = peers (set_peer s pe1)) by (rewrite Hp3, Hp2; reflexivity).
+  assert (Hgone : gone_of (ev_entity ChRemove pe (re_addr en) :: evs1) = [a]).
+  { change (gone_of (ev_entity ChRemove pe (re_addr en) :: evs1)) with (re_addr en :: gone_of evs1).
+    rewrite Hg, Haddr. reflexivity. }
+  rewrite Hgone. split; [|split; [|split; [|split]]].
+  - destruct Hok as [HokS HokB]. split; intros e He.
+    + rewrite Hs3, Hs2 in He. simpl in He. unfold drop in He. apply filter_In in He. destruct He as [He Hm].
+      simpl p_ski in Hm. rewrite Hski, Haddr in Hm.
+      exact (owner_survives s p pe a en e Ep Een (HokS e He) Hm _ Hp3').
+    + rewrite Hb3, Hb2 in He. simpl in He. unfold drop in He. apply filter_In in He. destruct He as [He Hm].
+      simpl p_ski in Hm. rewrite Hski, Haddr in Hm.
+      exact (owner_survives s p pe a en e Ep Een (HokB e He) Hm _ Hp3').
+  - constructor.
+    + rewrite Hs3, Hs2. simpl subs. simpl p_ski. rewrite Hski, Haddr. reflexivity.
+    + rewrite Hn3, Hn2. reflexivity.
+    + rewrite Hb3, Hb2. simpl binds. simpl p_ski. rewrite Hski, Haddr. reflexivity.
+    + rewrite Hnb3, Hnb2. reflexivity.
+  - simpl. exact Hq.
+  - exact Hres.
+  - right. reflexivity.
+Qed.
+
+Lemma regs_eq_trans s s1 s2 p g1 g2 :
+  regs_eq s s1 (drop p g1) (drop p g1) -> regs_eq s1 s2 (drop p g2) (drop p g2) ->
+  regs_eq s s2 (drop p (g1 ++ g2)) (drop p (g1 ++ g2)).
+Proof.
+  intros [A1 A2 A3 A4] [B1 B2 B3 B4]. constructor.
+  - rewrite B1, A1, drop_app. reflexivity.
+  - congruence.
+  - rewrite B3, A3, drop_app. reflexivity.
+  - congruence.
+Qed.
+
+Lemma remove_unlisted_spec listed es : forall s p s' evs,
+  RegOK s -> remove_unlisted s p listed es = (s', evs) ->
   RegOK s' /\ regs_eq s s' (drop p (gone_of evs)) (drop p (gone_of evs)) /\
   existsb is_notify evs = false /\ results evs = [].
 Proof.
-  induction l as [|de r IH]; intros s p s' evs err Hok H.
-  - simpl in H. inversion H; subst. split; [exact Hok|]. split; [|split; reflexivity].
-    constructor; simpl; rewrite ?drop_nil; reflexivity.
-  - rewrite remove_entities_cons in H. destruct (find_peer s p) as [pe|] eqn:Ep.
-    2:{ inversion H; subst. split; [exact Hok|]. split; [|split; reflexivity].
-        constructor; simpl; rewrite ?drop_nil; reflexivity. }
-    destruct (check_entity pe de); cbn [negb] in H.
-    2:{ inversion H; subst. split; [exact Hok|]. split; [|split; reflexivity].
-        constructor; simpl; rewrite ?drop_nil; reflexivity. }
-    destruct (find_rent pe (de_addr de)) as [en|] eqn:Een; [|exact (IH _ _ _ _ _ Hok H)].
-    cbv zeta in H.
-    set (pe1 := {| p_ski := p_ski pe; p_addr := p_addr pe;
-                   p_ents := filter (fun x => negb (eqb_eaddr (re_addr x) (de_addr de))) (p_ents pe) |}) in *.
-    pose proof (remove_for_entity_spec (set_peer s pe1) pe1 en) as Hr.
-    destruct (remove_for_entity (set_peer s pe1) pe1 en) as [s2 evs1].
-    destruct Hr as [[Hs2 Hn2 Hb2 Hnb2] [Hp2 [Hq [Hres Hg]]]].
-    destruct (clean_entity_caches_frame s2 en) as [[Hs3 Hn3 Hb3 Hnb3] Hp3].
-    destruct (remove_entities (clean_entity_caches s2 en) p r) as [[s4 evs2] err2] eqn:Er.
-    injection H as H1 H2 H3. subst s' evs err.
-    pose proof (find_peer_ski _ _ _ Ep) as Hski.
-    pose proof (find_rent_addr _ _ _ Een) as Haddr.
-    assert (Hp3' : peers (clean_entity_caches s2 en) = peers (set_peer s pe1)) by (rewrite Hp3, Hp2; reflexivity).
-    assert (Hok3 : RegOK (clean_entity_caches s2 en)).
-    { destruct Hok as [HokS HokB]. split; intros e He.
-      - rewrite Hs3, Hs2 in He. simpl in He. unfold drop in He. apply filter_In in He. destruct He as [He Hm].
-        simpl p_ski in Hm. rewrite Hski, Haddr in Hm.
-        exact (owner_survives s p pe (de_addr de) en e Ep Een (HokS e He) Hm _ Hp3').
-      - rewrite Hb3, Hb2 in He. simpl in He. unfold drop in He. apply filter_In in He. destruct He as [He Hm].
-        simpl p_ski in Hm. rewrite Hski, Haddr in Hm.
-        exact (owner_survives s p pe (de_addr de) en e Ep Een (HokB e He) Hm _ Hp3'). }
-    destruct (IH _ _ _ _ _ Hok3 Er) as [Hok4 [[Hs4 Hn4 Hb4 Hnb4] [Hq4 Hres4]]].
-    assert (Hgone : gone_of (ev_entity ChRemove pe (re_addr en) :: evs1 ++ evs2) = [re_addr en] ++ gone_of evs2).
-    { change (gone_of (ev_entity ChRemove pe (re_addr en) :: evs1 ++ evs2)) with (re_addr en :: gone_of (evs1 ++ evs2)).
-      rewrite gone_of_app, Hg. reflexivity. }
-    split; [exact Hok4|]. split; [|split].
-    + rewrite Hgone. constructor.
-      * rewrite Hs4, Hs3, Hs2. simpl subs. rewrite drop_app. simpl p_ski. rewrite Hski. reflexivity.
-      * rewrite Hn4, Hn3, Hn2. reflexivity.
-      * rewrite Hb4, Hb3, Hb2. simpl binds. rewrite drop_app. simpl p_ski. rewrite Hski. reflexivity.
-      * rewrite Hnb4, Hnb3, Hnb2. reflexivity.
-    + simpl. rewrite existsb_app, Hq, Hq4. reflexivity.
-    + change (results (ev_entity ChRemove pe (re_addr en) :: evs1 ++ evs2)) with (results (evs1 ++ evs2)).
-      rewrite results_app, Hres, Hres4. reflexivity.
+  induction es as [|a r IH]; intros s p s' evs Hok H.
+  - simpl in H. inversion H; subst. split; [exact Hok|]. split; [apply regs_eq_refl | split; reflexivity].
+  - simpl in H. destruct (existsb (eqb_eaddr a) listed || eqb_eaddr a [0%N]); [exact (IH _ _ _ _ Hok H)|].
+    destruct (remove_entity s p a) as [s1 evs1] eqn:E1.
+    destruct (remove_entity_spec _ _ _ _ _ Hok E1) as [Hok1 [Hr1 [Hq1 [Hres1 _]]]].
+    destruct (remove_unlisted s1 p listed r) as [s2 evs2] eqn:E2.
+    destruct (IH _ _ _ _ Hok1 E2) as [Hok2 [Hr2 [Hq2 Hres2]]].
+    injection H as H1 H2. subst s' evs.
+    split; [exact Hok2|]. split; [|split].
+    + rewrite gone_of_app. exact (regs_eq_trans _ _ _ _ _ _ Hr1 Hr2).
+    + rewrite existsb_app, Hq1, Hq2. reflexivity.
+    + rewrite results_app, Hres1, Hres2. reflexivity.
 Qed.
 
 Lemma RegOK_set_peer_add' s p pe pe0 m l :
@@ -261,35 +284,21 @@ Proof. induction l as [|x l [IH1 IH2]]; simpl; split; auto. Qed.
 
 Lemma notify_entries_cons s p m de r :
   notify_entries s p m (de :: r) =
-  match de_state de with
-  | None => (s, [], true)
-  | Some SAdded =>
-      match find_peer s p with
-      | None => (s, [], true)
-      | Some pe =>
-          if negb (all_checked pe (dm_ents m)) then
-            let ok := (fix pre (l : list disc_ent) := match l with
-                                                      | [] => []
-                                                      | d :: t => if check_entity pe d then d :: pre t else []
-                                                      end) (dm_ents m) in
-            let '(pe1, _) := add_entities pe m ok in
-            (set_peer s pe1, [], true)
-          else
-          let '(pe1, created) := add_entities pe m (dm_ents m) in
-          let s1 := set_peer s pe1 in
-          let '(s2, evs, err) := notify_entries s1 p m r in
-          (s2, map (ev_entity ChAdd pe) created ++ evs, err)
-      end
-  | Some SRemoved =>
-      let '(s1, evs, err) := remove_entities s p (dm_ents m) in
-      if err then (s1, evs, true) else
-      let '(s2, evs2, err2) := notify_entries s1 p m r in
-      (s2, evs ++ evs2, err2)
+  match de_state de, find_peer s p with
+  | None, _ => (s, [], true)
+  | Some _, None => (s, [], true)
+  | Some SAdded, Some pe =>
+      if negb (check_entity pe de) then (s, [], true) else
+      let '(pe1, created) := add_entities pe m [de] in
+      let '(s2, evs, err) := notify_entries (set_peer s pe1) p m r in
+      (s2, map (ev_entity ChAdd pe) created ++ evs, err)
+  | Some SRemoved, Some pe =>
+      if negb (check_removed pe de) then (s, [], true) else
+      let '(s1, evs) := remove_entity s p (de_addr de) in
+      let '(s2, evs2, err) := notify_entries s1 p m r in
+      (s2, evs ++ evs2, err)
   end.
 Proof. reflexivity. Qed.
-
-Lemma regs_eq_refl s p : regs_eq s s (drop p []) (drop p []).
-Proof. constructor; rewrite ?drop_nil; reflexivity. Qed.
 
 Lemma notify_entries_spec l : forall s p m s' evs err,
   RegOK s -> notify_entries s p m l = (s', evs, err) ->
@@ -299,43 +308,36 @@ Proof.
   induction l as [|de r IH]; intros s p m s' evs err Hok H.
   - simpl in H. inversion H; subst. split; [exact Hok|]. split; [apply regs_eq_refl | split; reflexivity].
   - rewrite notify_entries_cons in H.
-    destruct (de_state de) as [[|]|].
+    destruct (de_state de) as [[|]|]; [| |inversion H; subst; split; [exact Hok|]; split; [apply regs_eq_refl | split; reflexivity]].
     + (* added *)
       destruct (find_peer s p) as [pe|] eqn:Ep.
       2:{ inversion H; subst. split; [exact Hok|]. split; [apply regs_eq_refl | split; reflexivity]. }
-      destruct (all_checked pe (dm_ents m)); cbn [negb] in H.
-      * pose proof (RegOK_set_peer_add s p pe m (dm_ents m) Ep Hok) as Hok1.
-        destruct (add_entities pe m (dm_ents m)) as [pe1 created]. simpl fst in Hok1. cbv zeta in H.
-        destruct (notify_entries (set_peer s pe1) p m r) as [[s2 evs2] err2] eqn:Er.
-        injection H as H1 H2 H3. subst s' evs err.
-        destruct (IH _ _ _ _ _ _ Hok1 Er) as [Hok2 [[Hs2 Hn2 Hb2 Hnb2] [Hq2 Hr2]]].
-        destruct (quiet_added pe created) as [Hqa Hra].
-        split; [exact Hok2|]. split; [|split].
-        -- rewrite gone_of_app, gone_of_added. constructor; simpl; assumption.
-        -- rewrite existsb_app, Hqa, Hq2. reflexivity.
-        -- rewrite results_app, Hra, Hr2. reflexivity.
-      * cbv zeta in H.
-        match type of H with context [add_entities pe m ?ok] =>
-          pose proof (RegOK_set_peer_add s p pe m ok Ep Hok) as Hok1; destruct (add_entities pe m ok) as [pe1 cr] end.
-        simpl fst in Hok1. inversion H; subst. split; [exact Hok1|]. split; [|split; reflexivity].
-        constructor; simpl; rewrite ?drop_nil; reflexivity.
+      destruct (check_entity pe de); cbn [negb] in H.
+      2:{ inversion H; subst. split; [exact Hok|]. split; [apply regs_eq_refl | split; reflexivity]. }
+      pose proof (RegOK_set_peer_add s p pe m [de] Ep Hok) as Hok1.
+      destruct (add_entities pe m [de]) as [pe1 created]. simpl fst in Hok1.
+      destruct (notify_entries (set_peer s pe1) p m r) as [[s2 evs2] err2] eqn:Er.
+      injection H as H1 H2 H3. subst s' evs err.
+      destruct (IH _ _ _ _ _ _ Hok1 Er) as [Hok2 [[Hs2 Hn2 Hb2 Hnb2] [Hq2 Hr2]]].
+      destruct (quiet_added pe created) as [Hqa Hra].
+      split; [exact Hok2|]. split; [|split].
+      * rewrite gone_of_app, gone_of_added. constructor; simpl; assumption.
+      * rewrite existsb_app, Hqa, Hq2. reflexivity.
+      * rewrite results_app, Hra, Hr2. reflexivity.
     + (* removed *)
-      destruct (remove_entities s p (dm_ents m)) as [[s1 evs1] err1] eqn:Er1.
-      destruct (remove_entities_spec _ _ _ _ _ _ Hok Er1) as [Hok1 [[Hs1 Hn1 Hb1 Hnb1] [Hq1 Hr1]]].
-      destruct err1.
-      * inversion H; subst. split; [exact Hok1|]. split; [constructor; assumption | split; assumption].
-      * destruct (notify_entries s1 p m r) as [[s2 evs2] err2] eqn:Er.
-        injection H as H1 H2 H3. subst s' evs err.
-        destruct (IH _ _ _ _ _ _ Hok1 Er) as [Hok2 [[Hs2 Hn2 Hb2 Hnb2] [Hq2 Hr2]]].
-        split; [exact Hok2|]. split; [|split].
-        -- rewrite gone_of_app. constructor.
-           ++ rewrite Hs2, Hs1, drop_app. reflexivity.
-           ++ rewrite Hn2, Hn1. reflexivity.
-           ++ rewrite Hb2, Hb1, drop_app. reflexivity.
-           ++ rewrite Hnb2, Hnb1. reflexivity.
-        -- rewrite existsb_app, Hq1, Hq2. reflexivity.
-        -- rewrite results_app, Hr1, Hr2. reflexivity.
-    + inversion H; subst. split; [exact Hok|]. split; [apply regs_eq_refl | split; reflexivity].
+      destruct (find_peer s p) as [pe|] eqn:Ep.
+      2:{ inversion H; subst. split; [exact Hok|]. split; [apply regs_eq_refl | split; reflexivity]. }
+      destruct (check_removed pe de); cbn [negb] in H.
+      2:{ inversion H; subst. split; [exact Hok|]. split; [apply regs_eq_refl | split; reflexivity]. }
+      destruct (remove_entity s p (de_addr de)) as [s1 evs1] eqn:E1.
+      destruct (remove_entity_spec _ _ _ _ _ Hok E1) as [Hok1 [Hr1 [Hq1 [Hres1 _]]]].
+      destruct (notify_entries s1 p m r) as [[s2 evs2] err2] eqn:Er.
+      injection H as H1 H2 H3. subst s' evs err.
+      destruct (IH _ _ _ _ _ _ Hok1 Er) as [Hok2 [Hr2 [Hq2 Hres2]]].
+      split; [exact Hok2|]. split; [|split].
+      * rewrite gone_of_app. exact (regs_eq_trans _ _ _ _ _ _ Hr1 Hr2).
+      * rewrite existsb_app, Hq1, Hq2. reflexivity.
+      * rewrite results_app, Hres1, Hres2. reflexivity.
 Qed.
 
 (* ---------- disconnect ---------- *)
@@ -553,6 +555,7 @@ Definition IdsOK (s : st) : Prop :=
 (* how one step changes the two registries: entries are only dropped, or one fresh owned entry is appended *)
 Inductive reg_change (nxt : N) (l : list entry) (owner : entry -> Prop) : list entry -> N -> Prop :=
 | rc_filter P : reg_change nxt l owner (filter P l) nxt
+| rc_mapf f P : (forall x, e_id (f x) = e_id x) -> reg_change nxt l owner (filter P (map f l)) nxt
 | rc_bump n : (nxt <= n)%N -> reg_change nxt l owner l n
 | rc_add e : e_id e = N.succ nxt -> owner e -> reg_change nxt l owner (l ++ [e]) (N.succ nxt).
 
@@ -561,8 +564,13 @@ Lemma reg_change_ids nxt l owner l1 n1 :
   (forall e, In e l -> (e_id e <= nxt)%N) -> NoDup (map e_id l) ->
   (forall e, In e l1 -> (e_id e <= n1)%N) /\ NoDup (map e_id l1).
 Proof.
-  intros [P|n Hn|e He Ho] Hb Hd.
+  intros [P|f P Hf|n Hn|e He Ho] Hb Hd.
   - split; [intros e He; apply filter_In in He; apply Hb; tauto | apply sublist_ids; exact Hd].
+  - assert (Hm : map e_id (map f l) = map e_id l) by (rewrite map_map; apply map_ext; exact Hf).
+    split.
+    + intros e He. apply filter_In in He. destruct He as [He _]. apply in_map_iff in He.
+      destruct He as [x [<- Hx]]. rewrite Hf. apply Hb. exact Hx.
+    + apply sublist_ids. rewrite Hm. exact Hd.
   - split; [intros e He; specialize (Hb e He); lia | exact Hd].
   - split.
     + intros x Hx. apply in_app_or in Hx. destruct Hx as [Hx|[<-|[]]]; [specialize (Hb x Hx); lia | lia].
@@ -608,6 +616,120 @@ Proof.
   specialize (Hf pe eq_refl Hok). destruct (f s pe c) as [[s1 evs] err]. exact Hf.
 Qed.
 
+(* ---------- the device-added handler of a discovery reply ---------- *)
+Lemma complete_one_props p d x :
+  e_id (complete_one p d x) = e_id x /\ e_ski (complete_one p d x) = e_ski x /\
+  e_srv (complete_one p d x) = e_srv x /\ fa_ent (e_cli (complete_one p d x)) = fa_ent (e_cli x).
+Proof.
+  unfold complete_one. destruct (N.eqb (e_ski x) p && eqb_faddr (e_cli x) (nm_addr None)) eqn:E; simpl; [|auto].
+  apply andb_true_iff in E. destruct E as [_ E]. apply eqb_faddr_eq in E. rewrite E. auto.
+Qed.
+
+Definition reply_map (p : N) (pe pe1 : peer) (l : list entry) : list entry :=
+  if reply_completes pe pe1 then complete_nm_addr p (p_addr pe1) l else l.
+
+Lemma reply_map_map p pe pe1 l : exists f, (forall x, f x = x \/ f x = complete_one p (p_addr pe1) x) /\ reply_map p pe pe1 l = map f l.
+Proof.
+  unfold reply_map. destruct (reply_completes pe pe1).
+  - exists (complete_one p (p_addr pe1)). split; [auto | reflexivity].
+  - exists (fun x => x). split; [auto | symmetry; apply map_id].
+Qed.
+
+Lemma find_rent_complete_tree pe d e :
+  match find_rent pe e with Some _ => True | None => False end ->
+  match find_rent (complete_nm_tree pe d) e with Some _ => True | None => False end.
+Proof.
+  unfold find_rent, complete_nm_tree. simpl. induction (p_ents pe) as [|x l IH]; simpl; [tauto|].
+  assert (Ha : forall y, re_addr (if eqb_eaddr (re_addr y) [0%N]
+                                  then {| re_dev := re_dev y; re_addr := re_addr y;
+                                          re_feats := map (fun rf => if N.eqb (rf_id rf) 0 && eqb_optN (rf_dev rf) None
+                                                                     then {| rf_dev := d; rf_id := rf_id rf; rf_type := rf_type rf; rf_role := rf_role rf |}
+                                                                     else rf) (re_feats y) |}
+                                  else y) = re_addr y) by (intros y; destruct (eqb_eaddr (re_addr y) [0%N]); reflexivity).
+  rewrite Ha. destruct (eqb_eaddr (re_addr x) e); [tauto | exact IH].
+Qed.
+
+(* the handler rewrites client addresses and node-management feature addresses, nothing else the
+   registries' ownership depends on *)
+Lemma handle_device_added_spec s1 p pe pe1 listed0 :
+  find_peer s1 p = Some pe1 -> p_ski pe1 = p -> RegOK s1 ->
+  let s2 := handle_device_added s1 p pe pe1 listed0 in
+  RegOK s2 /\ subs s2 = reply_map p pe pe1 (subs s1) /\ binds s2 = reply_map p pe pe1 (binds s1) /\
+  next_sub s2 = next_sub s1 /\ next_bind s2 = next_bind s1 /\
+  (forall q, match find_peer s1 q, find_peer s2 q with
+             | Some a, Some b => p_ski b = p_ski a /\ p_addr b = p_addr a
+             | None, None => True
+             | _, _ => False
+             end).
+Proof.
+  intros Ep Hski Hok. unfold handle_device_added, reply_map.
+  set (sa := set_binds (set_subs s1 (complete_nm_addr p (p_addr pe1) (subs s1)) (next_sub s1))
+                       (complete_nm_addr p (p_addr pe1) (binds s1)) (next_bind s1)).
+  set (s1a := if reply_completes pe pe1 then (if listed0 then sa else set_peer sa (complete_nm_tree pe1 (p_addr pe1))) else s1).
+  assert (H1a : RegOK s1a /\ subs s1a = (if reply_completes pe pe1 then complete_nm_addr p (p_addr pe1) (subs s1) else subs s1) /\
+                binds s1a = (if reply_completes pe pe1 then complete_nm_addr p (p_addr pe1) (binds s1) else binds s1) /\
+                next_sub s1a = next_sub s1 /\ next_bind s1a = next_bind s1 /\
+                (forall q, match find_peer s1 q, find_peer s1a q with
+                           | Some a, Some b => p_ski b = p_ski a /\ p_addr b = p_addr a
+                           | None, None => True
+                           | _, _ => False
+                           end)).
+  { unfold s1a. destruct (reply_completes pe pe1).
+    2:{ repeat split; try assumption; try reflexivity; try (destruct Hok; assumption).
+        intros q. destruct (find_peer s1 q); auto. }
+    assert (Hown : forall s' (l : list entry),
+              (forall e, In e l -> owner_ok s1 e) ->
+              (forall q pq e, find_peer s1 q = Some pq -> match find_rent pq e with Some _ => True | None => False end ->
+                 exists pq', find_peer s' q = Some pq' /\ match find_rent pq' e with Some _ => True | None => False end) ->
+              forall e, In e (complete_nm_addr p (p_addr pe1) l) -> owner_ok s' e).
+    { intros s' l Hl Hs' e He. unfold complete_nm_addr in He. apply in_map_iff in He. destruct He as [x [<- Hx]].
+      destruct (complete_one_props p (p_addr pe1) x) as [_ [Hk [_ Hen]]].
+      destruct (Hl x Hx) as [pq [en [Hf Hr]]].
+      destruct (Hs' (e_ski x) pq (fa_ent (e_cli x)) Hf) as [pq' [Hf' Hr']]; [rewrite Hr; exact I|].
+      destruct (find_rent pq' (fa_ent (e_cli x))) as [en'|] eqn:Er'; [|destruct Hr'].
+      exists pq', en'. rewrite Hk, Hen. split; assumption. }
+    destruct Hok as [HokS HokB]. destruct listed0.
+    - assert (HR : RegOK sa).
+      { split; [apply (Hown sa (subs s1) HokS) | apply (Hown sa (binds s1) HokB)];
+          (intros q pq e Hf Hr; exists pq; split; [exact Hf | exact Hr]). }
+      split; [exact HR|].
+      repeat split; try reflexivity. intros q. change (find_peer sa q) with (find_peer s1 q). destruct (find_peer s1 q); auto.
+    - assert (Hfp : forall q, find_peer (set_peer sa (complete_nm_tree pe1 (p_addr pe1))) q =
+                      match find_peer s1 q with
+                      | Some x => if N.eqb q p then Some (complete_nm_tree pe1 (p_addr pe1)) else Some x
+                      | None => None
+                      end).
+      { intros q. rewrite find_peer_set_peer. change (find_peer sa q) with (find_peer s1 q). simpl p_ski. rewrite Hski. reflexivity. }
+      assert (Hs' : forall q pq e, find_peer s1 q = Some pq -> match find_rent pq e with Some _ => True | None => False end ->
+                 exists pq', find_peer (set_peer sa (complete_nm_tree pe1 (p_addr pe1))) q = Some pq' /\
+                             match find_rent pq' e with Some _ => True | None => False end).
+      { intros q pq e Hf Hr. rewrite Hfp, Hf. destruct (N.eqb_spec q p) as [E|E].
+        - subst q. rewrite Ep in Hf. inversion Hf; subst pq. eexists. split; [reflexivity|].
+          apply find_rent_complete_tree. exact Hr.
+        - exists pq. auto. }
+      assert (HR : RegOK (set_peer sa (complete_nm_tree pe1 (p_addr pe1)))).
+      { split; [apply (Hown _ (subs s1) HokS Hs') | apply (Hown _ (binds s1) HokB Hs')]. }
+      split; [exact HR|].
+      repeat split; try reflexivity. intros q. rewrite Hfp. destruct (find_peer s1 q) as [x|] eqn:Ex; [|exact I].
+      destruct (N.eqb_spec q p) as [E|E]; [|auto]. subst q. rewrite Ep in Ex. inversion Ex; subst x. split; reflexivity. }
+  destruct H1a as [Hok1a [Hs [Hb [Hn [Hnb Hfp]]]]].
+  assert (Hupd : forall d0, let s2 := upd_lfeat s1a [0%N] 0 (add_client_ref true (nm_addr (Some d0))) in
+            RegOK s2 /\ subs s2 = subs s1a /\ binds s2 = binds s1a /\ next_sub s2 = next_sub s1a /\ next_bind s2 = next_bind s1a /\
+            peers s2 = peers s1a).
+  { intros d0. cbv zeta. repeat split; try reflexivity; intros e He; (destruct Hok1a as [A B]); [apply (owner_peers s1a _ e eq_refl); apply A; exact He | apply (owner_peers s1a _ e eq_refl); apply B; exact He]. }
+  destruct (match remote_feature pe (nm_addr None) with Some (_, rf) => rf_dev rf | None => None end) as [d0|].
+  - destruct (peer_by_addr s1a d0).
+    + destruct (Hupd d0) as [A [B [C [D [E F]]]]]. cbv zeta in *.
+      split; [exact A|]. rewrite B, C, D, E. repeat split; try assumption.
+    + (split; [exact Hok1a|]; repeat split; assumption).
+  - destruct (p_addr pe1) as [d1|] eqn:Ea1.
+    + destruct (peer_by_addr s1a d1).
+      * destruct (Hupd d1) as [A [B [C [D [E F]]]]]. cbv zeta in *.
+        split; [exact A|]. rewrite B, C, D, E. repeat split; try assumption.
+        * (split; [exact Hok1a|]; repeat split; assumption).
+    + (split; [exact Hok1a|]; repeat split; assumption).
+Qed.
+
 Lemma step_effect s o : RegOK s -> effect s (fst (step s o)).
 Proof.
   intros Hok. destruct o; cbn [step].
@@ -636,14 +758,24 @@ Proof.
     destruct (remote_feature pe (nm_addr None)); [|simpl; apply unchanged_effect; auto].
     set (pe0 := {| p_ski := p_ski pe; p_addr := match dm_dev m with Some d => Some d | None => p_addr pe end; p_ents := p_ents pe |}).
     pose proof (RegOK_set_peer_add' s p pe pe0 m (dm_ents m) Ep eq_refl eq_refl Hok) as Hok1.
-    destruct (add_entities pe0 m (dm_ents m)) as [pe1 created]. simpl fst in Hok1.
-    assert (G : forall s2, subs s2 = subs s -> next_sub s2 = next_sub s -> binds s2 = binds s -> next_bind s2 = next_bind s ->
-                 peers s2 = peers (set_peer s pe1) -> effect s s2).
-    { intros s2 H1 H2 H3 H4 H5. destruct Hok1 as [HokS HokB]. split; [|split].
-      - split; intros e He; [rewrite H1 in He | rewrite H3 in He]; apply (owner_peers (set_peer s pe1) s2 e H5); auto.
-      - rewrite H1, H2. apply reg_change_same.
-      - rewrite H3, H4. apply reg_change_same. }
-    destruct (p_addr pe1); simpl; apply G; reflexivity.
+    pose proof (add_entities_ski pe0 m (dm_ents m)) as Hski.
+    destruct (add_entities pe0 m (dm_ents m)) as [pe1 created]. simpl fst in Hok1, Hski.
+    pose proof (find_peer_ski _ _ _ Ep) as Hp.
+    assert (Ep1 : find_peer (set_peer s pe1) p = Some pe1).
+    { rewrite find_peer_set_peer, Ep, Hski. simpl. rewrite Hp, N.eqb_refl. reflexivity. }
+    assert (Hski1 : p_ski pe1 = p) by (rewrite Hski; simpl; exact Hp).
+    destruct (handle_device_added_spec (set_peer s pe1) p pe pe1
+                (existsb (fun de => eqb_eaddr (de_addr de) [0%N]) (dm_ents m)) Ep1 Hski1 Hok1) as [Hok2 [Hs2 [Hb2 [Hn2 [Hnb2 _]]]]].
+    destruct (remove_unlisted _ p (map de_addr (dm_ents m)) (map re_addr (p_ents pe1))) as [s3 evs] eqn:Eu.
+    destruct (remove_unlisted_spec _ _ _ _ _ _ Hok2 Eu) as [Hok3 [[Hs3 Hn3 Hb3 Hnb3] _]]. simpl fst.
+    split; [exact Hok3|].
+    destruct (reply_map_map p pe pe1 (subs s)) as [f [Hf HfS]].
+    destruct (reply_map_map p pe pe1 (binds s)) as [g [Hg HgB]].
+    assert (Hid : forall (h : entry -> entry), (forall x, h x = x \/ h x = complete_one p (p_addr pe1) x) -> forall x, e_id (h x) = e_id x).
+    { intros h Hh x. destruct (Hh x) as [-> | ->]; [reflexivity | apply complete_one_props]. }
+    split.
+    + rewrite Hs3, Hn3, Hs2, Hn2. simpl subs. simpl next_sub. rewrite HfS. apply rc_mapf. apply Hid. exact Hf.
+    + rewrite Hb3, Hnb3, Hb2, Hnb2. simpl binds. simpl next_bind. rewrite HgB. apply rc_mapf. apply Hid. exact Hg.
   - (* DiscoveryNotify *)
     unfold with_source. destruct (find_peer s p) as [pe|] eqn:Ep; [|simpl; apply unchanged_effect; auto].
     destruct (remote_feature pe (nm_addr None)); [|simpl; apply unchanged_effect; auto].
@@ -736,4 +868,87 @@ Proof.
   induction ops as [|o ops IH]; intros s I; simpl; [exact I|].
   pose proof (sinv_step s o I) as I1. destruct (step s o) as [s1 out]. simpl in I1.
   specialize (IH s1 I1). destruct (run s1 ops) as [s2 tr]. exact IH.
+Qed.
+
+(* ---------- a discovery reply as a whole ---------- *)
+Definition reply_addr (pe : peer) (m : disc_msg) : option N :=
+  match dm_dev m with Some d => Some d | None => p_addr pe end.
+
+(* the device address the reply writes into the node-management feature's address, if it does *)
+Definition model_completion (s : st) (p : N) (m : disc_msg) : option N :=
+  match find_peer s p with
+  | Some pe =>
+      match remote_feature pe (nm_addr None) with
+      | Some (_, rf) => match rf_dev rf with None => reply_addr pe m | Some _ => None end
+      | None => None
+      end
+  | None => None
+  end.
+
+Definition completed (s : st) (p : N) (m : disc_msg) (l : list entry) : list entry :=
+  match model_completion s p m with
+  | Some d => complete_nm_addr p (Some d) l
+  | None => l
+  end.
+
+Lemma nm_completion_model s p m :
+  nm_completion s p m (snd (step s (DiscoveryReply p m))) = model_completion s p m.
+Proof.
+  unfold nm_completion, model_completion. cbn [step]. unfold with_source.
+  destruct (find_peer s p) as [pe|]; [|reflexivity].
+  destruct (remote_feature pe (nm_addr None)) as [[en rf]|]; [|reflexivity].
+  destruct (add_entities _ m (dm_ents m)) as [pe1 created].
+  destruct (remove_unlisted _ p _ _) as [s3 evs]. cbn [snd reply_accepted existsb]. rewrite N.eqb_refl. reflexivity.
+Qed.
+
+Lemma reply_step_spec s p m : RegOK s ->
+  let s' := fst (step s (DiscoveryReply p m)) in
+  let out := snd (step s (DiscoveryReply p m)) in
+  RegOK s' /\
+  subs s' = drop p (gone_of out) (completed s p m (subs s)) /\
+  binds s' = drop p (gone_of out) (completed s p m (binds s)) /\
+  next_sub s' = next_sub s /\ next_bind s' = next_bind s /\
+  existsb is_notify out = false /\ results out = [].
+Proof.
+  intros Hok. unfold completed, model_completion. cbn [step]. unfold with_source.
+  destruct (find_peer s p) as [pe|] eqn:Ep.
+  2:{ cbn [fst snd gone_of flat_map]. rewrite !drop_nil. repeat split; try reflexivity; destruct Hok; assumption. }
+  destruct (remote_feature pe (nm_addr None)) as [[en rf]|] eqn:Esrc.
+  2:{ cbn [fst snd gone_of flat_map]. rewrite !drop_nil. repeat split; try reflexivity; destruct Hok; assumption. }
+  set (pe0 := {| p_ski := p_ski pe; p_addr := match dm_dev m with Some d => Some d | None => p_addr pe end; p_ents := p_ents pe |}).
+  pose proof (RegOK_set_peer_add' s p pe pe0 m (dm_ents m) Ep eq_refl eq_refl Hok) as Hok1.
+  pose proof (add_entities_ski pe0 m (dm_ents m)) as Hski.
+  pose proof (add_entities_addr pe0 m (dm_ents m)) as Haddr.
+  destruct (add_entities pe0 m (dm_ents m)) as [pe1 created]. simpl fst in Hok1, Hski, Haddr.
+  pose proof (find_peer_ski _ _ _ Ep) as Hp.
+  assert (Ep1 : find_peer (set_peer s pe1) p = Some pe1).
+  { rewrite find_peer_set_peer, Ep, Hski. simpl. rewrite Hp, N.eqb_refl. reflexivity. }
+  assert (Hski1 : p_ski pe1 = p) by (rewrite Hski; simpl; exact Hp).
+  destruct (handle_device_added_spec (set_peer s pe1) p pe pe1
+              (existsb (fun de => eqb_eaddr (de_addr de) [0%N]) (dm_ents m)) Ep1 Hski1 Hok1) as [Hok2 [Hs2 [Hb2 [Hn2 [Hnb2 _]]]]].
+  destruct (remove_unlisted _ p (map de_addr (dm_ents m)) (map re_addr (p_ents pe1))) as [s3 evs] eqn:Eu.
+  destruct (remove_unlisted_spec _ _ _ _ _ _ Hok2 Eu) as [Hok3 [[Hs3 Hn3 Hb3 Hnb3] [Hq3 Hr3]]].
+  cbn [fst snd].
+  assert (Hg : gone_of (OEvent EvDevice ChAdd p None None None :: map (ev_entity ChAdd pe1) created ++ evs) = gone_of evs).
+  { change (gone_of (OEvent EvDevice ChAdd p None None None :: map (ev_entity ChAdd pe1) created ++ evs))
+      with (gone_of (map (ev_entity ChAdd pe1) created ++ evs)).
+    rewrite gone_of_app, gone_of_added. reflexivity. }
+  rewrite Hg.
+  assert (Hmap : forall l, reply_map p pe pe1 l =
+                           match (match rf_dev rf with None => reply_addr pe m | Some _ => None end) with
+                           | Some d => complete_nm_addr p (Some d) l
+                           | None => l
+                           end).
+  { intros l. unfold reply_map, reply_completes, reply_addr. rewrite Esrc, Haddr. simpl p_addr.
+    destruct (rf_dev rf); [reflexivity|]. destruct (match dm_dev m with Some d => Some d | None => p_addr pe end); reflexivity. }
+  split; [exact Hok3|]. split; [|split; [|split; [|split; [|split]]]].
+  - rewrite Hs3, Hs2, Hmap. reflexivity.
+  - rewrite Hb3, Hb2, Hmap. reflexivity.
+  - rewrite Hn3, Hn2. reflexivity.
+  - rewrite Hnb3, Hnb2. reflexivity.
+  - destruct (quiet_added pe1 created) as [Hqa _]. simpl. rewrite existsb_app, Hqa, Hq3. reflexivity.
+  - destruct (quiet_added pe1 created) as [_ Hra].
+    change (results (OEvent EvDevice ChAdd p None None None :: map (ev_entity ChAdd pe1) created ++ evs))
+      with (results (map (ev_entity ChAdd pe1) created ++ evs)).
+    rewrite results_app, Hra, Hr3. reflexivity.
 Qed.
